@@ -572,22 +572,44 @@ type replayCfg struct {
 // tree with `go test -overlay`, nothing is written to /repo) on the witness battery and on the
 // solver's model when there is one.  It returns true when a concrete failing input was confirmed
 // against the real code, and records it in the replay file.
+func loadReplayIndex(root string) map[string][]replayCfg {
+	var raw map[string]json.RawMessage
+	if err := loadJSON(filepath.Join(root, "replay", "index.json"), &raw); err != nil {
+		return nil
+	}
+	out := map[string][]replayCfg{}
+	for k, v := range raw {
+		var many []replayCfg
+		if json.Unmarshal(v, &many) == nil {
+			out[k] = many
+			continue
+		}
+		var one replayCfg
+		if json.Unmarshal(v, &one) == nil {
+			out[k] = []replayCfg{one}
+		}
+	}
+	return out
+}
+
 func tryReplay(root, id string, v violation, path string) bool {
-	var idx map[string]replayCfg
-	if err := loadJSON(filepath.Join(root, "replay", "index.json"), &idx); err != nil {
+	cfgs := loadReplayIndex(root)[id]
+	if len(cfgs) == 0 {
 		return false
 	}
-	cfg, ok := idx[id]
-	if !ok {
-		return false
+	var confirmed, outputs, harnesses []string
+	for _, cfg := range cfgs {
+		cf, output := runReplayHarness(root, id, cfg, filepath.Join(root, "replay", cfg.Dir, "battery.json"))
+		confirmed = append(confirmed, cf...)
+		outputs = append(outputs, output)
+		harnesses = append(harnesses, filepath.Join(root, "replay", cfg.Dir, "replay_test.go"))
 	}
-	confirmed, output := runReplayHarness(root, id, cfg, filepath.Join(root, "replay", cfg.Dir, "battery.json"))
 	var m map[string]interface{}
 	if err := loadJSON(path, &m); err != nil {
 		m = map[string]interface{}{}
 	}
-	m["replay_harness"] = filepath.Join(root, "replay", cfg.Dir, "replay_test.go")
-	m["replay_output"] = output
+	m["replay_harness"] = strings.Join(harnesses, ", ")
+	m["replay_output"] = strings.Join(outputs, "\n")
 	if len(confirmed) > 0 {
 		m["replay_confirmed"] = true
 		m["failing_input"] = confirmed
